@@ -13,8 +13,9 @@ RULE = ("cases = (failure kind, call chain): each defined dynamic failure (asser
         "callbacks and functions of an imported module, optionally under if / while / from blocks, with output printed on the "
         "way down; enumerated part = every kind x every single-element chain kind x depth {0,1,2}; random part = Hypothesis "
         "chains. Oracle: stdout = the prescribed lines, exit status 1 (not 101/134), the FATAL RUNTIME ERROR banner, and a "
-        "trace whose function entries (block frames and native entries dropped) are exactly the active chain innermost first "
-        "down to __module__; labels of function values are learnt from `print f` lines; a failed assert must name "
+        "trace whose function entries are exactly the active chain innermost first down to __module__ and whose block-frame "
+        "entries (<if>/<else>/<while>) are exactly the blocks open at the failure - loops completed by break / continue before the "
+        "failure must leave nothing behind (native entries dropped); labels of function values are learnt from `print f` lines; a failed assert must name "
         "file:line:col of that assert. Non-trivial = depth >= 2 or a callback / method / import in the chain; distinct by "
         "(kind, chain, wrappers)")
 ASSUMPTIONS = ["function labels are read from the program's own `print <function>` output instead of modelling id assignment",
@@ -67,6 +68,25 @@ def wrap(kind, body):
     return [("from", I(0), I(2), False, None, None, body)]
 
 
+BLOCK_OF = {"none": [], "if": ["<if>"], "else": ["<else>"], "while": ["<while>"], "from": ["<while>"]}
+PREFIXES = ["none", "while-break", "from-break", "while-continue", "nested-break"]
+
+
+def prefix_loop(kind, tag):
+    """a loop that COMPLETES (by break / continue / normally) before the call or the failure: it must leave no frame behind"""
+    q = "q" + tag
+    if kind == "while-break":
+        return [("decl", q, None, I(0), ()), ("while", ("bin", "<", V(q), I(3)), [("decl", q, None, ("bin", "+", V(q), I(1)), ()), ("if", ("bin", "==", V(q), I(2)), [("break",)], None)])]
+    if kind == "from-break":
+        return [("from", I(0), I(3), False, None, q, [("if", ("bin", "==", V(q), I(1)), [("break",)], None)])]
+    if kind == "while-continue":
+        return [("decl", q, None, I(0), ()), ("while", ("bin", "<", V(q), I(2)), [("decl", q, None, ("bin", "+", V(q), I(1)), ()), ("if", ("bin", "==", V(q), I(1)), [("continue",)], None), ("print", S("tick"))])]
+    if kind == "nested-break":
+        return [("decl", q, None, I(0), ()), ("while", ("bin", "<", V(q), I(2)), [("decl", q, None, ("bin", "+", V(q), I(1)), ()),
+                ("from", I(0), I(2), False, None, None, [("if", ("bin", ">", V(q), I(0)), [("break",)], [("print", S("never"))])]), ("break",)])]
+    return []
+
+
 def call_next(nxt, idx, arg):
     """statements computing `r` by calling chain element idx of kind nxt with argument arg"""
     if nxt in ("F", "C", "IMP"):
@@ -88,7 +108,8 @@ def build(case):
     labels_to_print = {"main": [], "lib": []}
     expect_lines = []
     exp_chain = []
-    failing_body = setup + [("print", S("pre-failure")), failing, ("print", S("unreachable"))]
+    pk = case.get("prefix", "none")
+    failing_body = setup + prefix_loop(pk, "f") + [("print", S("pre-failure")), failing, ("print", S("unreachable"))]
     # innermost first
     for idx in range(d - 1, -1, -1):
         where = "lib" if idx >= split else "main"
@@ -97,7 +118,7 @@ def build(case):
         if idx == d - 1:
             inner = wrap(case["inner_wrap"], failing_body)
         else:
-            inner = wrap(case["wrap"] if idx % 2 == 0 else "none", call_next(chain[idx + 1], idx + 1, V("a")) + [("print", S("leave " + name))])
+            inner = wrap(case["wrap"] if idx % 2 == 0 else "none", prefix_loop(pk, str(idx)) + call_next(chain[idx + 1], idx + 1, V("a")) + [("print", S("leave " + name))])
         body = [("print", S("enter " + name))] + inner + [("return", V("a"))]
         if ek == "M":
             cname = "K%d" % idx
@@ -127,22 +148,33 @@ def build(case):
         top = wrap(case["inner_wrap"], failing_body)
     else:
         nxt = "IMP" if split == 0 else chain[0]
-        top = wrap(case["wrap"], call_next(nxt if nxt != "IMP" else "F", 0, V("a")) + [("print", S("back"))])
+        top = wrap(case["wrap"], prefix_loop(pk, "m") + call_next(nxt if nxt != "IMP" else "F", 0, V("a")) + [("print", S("back"))])
     main += top
     main.append(("print", S("@end")))
     # expectations
+    ticks = ["tick"] if pk == "while-continue" else []
     expect = ["@start"]
+    if d > 0:
+        expect += ticks                      # module level runs its prefix before calling e0
     for idx in range(d):
         if chain[idx] == "C":
             expect.append("cap=7")
         expect.append("enter e%d" % idx)
+        expect += ticks                      # every element runs its prefix before calling on / failing
+    if d == 0:
+        expect += ticks
     expect.append("pre-failure")
     for idx in range(d - 1, -1, -1):
         fl = "lib.mmm" if idx >= split else "main.mmm"
+        w = case["inner_wrap"] if idx == d - 1 else (case["wrap"] if idx % 2 == 0 else "none")
+        for b in BLOCK_OF[w]:
+            exp_chain.append({"block": b})
         if chain[idx] == "M":
             exp_chain.append({"label": "%s#K%d::m" % (fl, idx)})
         else:
             exp_chain.append({"fn": "e%d" % idx})
+    for b in BLOCK_OF[case["inner_wrap"] if d == 0 else case["wrap"]]:
+        exp_chain.append({"block": b})
     exp_chain.append({"label": "main.mmm#__module__"})
     msrc, mmarks = ms.program(main)
     files_out = {"p/q/r/main.ms": msrc}
@@ -196,21 +228,25 @@ def a_report(a, res, ctx):
                 ln = ln.strip()
                 if ln.startswith(">> ") or ln.startswith("^ "):
                     lab = ln.split(" ", 1)[1].strip()
-                    if lab not in SPECIAL and not lab.startswith("<native code>"):
+                    if not lab.startswith("<native code>"):
                         got.append(lab)
         exp = []
         for e in a["chain"]:
-            exp.append(e["label"] if "label" in e else labels.get(e["fn"], "<label of %s not printed>" % e["fn"]))
-        if got != exp:
-            out.append("trace: expected %r got %r" % (exp, got))
+            exp.append(e["block"] if "block" in e else (e["label"] if "label" in e else labels.get(e["fn"], "<label of %s not printed>" % e["fn"])))
+        fns = lambda l: [x for x in l if x not in SPECIAL]
+        if fns(got) != fns(exp):
+            out.append("trace: expected %r got %r" % (fns(exp), fns(got)))
+        elif got != exp:
+            # same functions, but the block frames shown between them are not the blocks that are open at the failure
+            out.append("trace-blocks: expected %r got %r" % (exp, got))
         if a.get("assert_pos") and a["assert_pos"] not in r.stderr:
             out.append("assert-position: stderr does not name %s" % a["assert_pos"])
     return out or None
 
 
 def describe(case):
-    return "%s @ %s%s wrap=%s/%s" % (case["kind"], "".join(case["chain"]) or "module", (" lib-from-%d" % case["split"]) if case["split"] < len(case["chain"]) else "",
-                                      case["wrap"], case["inner_wrap"])
+    return "%s @ %s%s wrap=%s/%s prefix=%s" % (case["kind"], "".join(case["chain"]) or "module", (" lib-from-%d" % case["split"]) if case["split"] < len(case["chain"]) else "",
+                                                case["wrap"], case["inner_wrap"], case.get("prefix", "none"))
 
 
 def check(case):
@@ -246,6 +282,9 @@ def enumerated(tier, seed):
                 cases.append({"kind": kind, "chain": [e, e2], "split": 2, "wrap": "if", "inner_wrap": "from"})
         cases.append({"kind": kind, "chain": ["F", "F"], "split": 1, "wrap": "none", "inner_wrap": "none"})
         cases.append({"kind": kind, "chain": ["F", "CB", "M"], "split": 1, "wrap": "while", "inner_wrap": "else"})
+        for pk in PREFIXES[1:]:
+            cases.append({"kind": kind, "chain": ["F"], "split": 1, "wrap": "none", "inner_wrap": "if", "prefix": pk})
+            cases.append({"kind": kind, "chain": [], "split": 0, "wrap": "none", "inner_wrap": "none", "prefix": pk})
     return cases
 
 
@@ -260,7 +299,7 @@ def cases_st(draw):
         split = g.int(0, d - 1)
         if chain[split] == "M":
             chain[split] = "F"
-    return {"kind": kind, "chain": chain, "split": split, "wrap": g.choice(WRAPS), "inner_wrap": g.choice(WRAPS)}
+    return {"kind": kind, "chain": chain, "split": split, "wrap": g.choice(WRAPS), "inner_wrap": g.choice(WRAPS), "prefix": g.choice(PREFIXES + ["none", "none"])}
 
 
 def strategy(tier):
